@@ -160,6 +160,36 @@ def _is_pure(e: ast.AST | None) -> bool:
     return False
 
 
+_STABLE_METHODS = {'casefold', 'lower', 'upper', 'strip', 'lstrip', 'rstrip', 'title'}
+
+
+def _is_stable(e: ast.AST, attr_stores: set[str]) -> bool:
+    """Expressions whose evaluation has no effect and cannot fail, and whose value stays the same for as long as the names in them are
+    not re-bound: names, literals, loads of attributes that are not assigned in the region looked at (assumption: attribute loads are
+    plain field reads and callees do not re-assign the fields of their arguments), str methods without effects on such values,
+    comparisons and boolean combinations of them."""
+    if isinstance(e, (ast.Name, ast.Constant)):
+        return True
+    if isinstance(e, ast.Attribute):
+        return e.attr not in attr_stores and _is_stable(e.value, attr_stores)
+    if isinstance(e, ast.Call) and not e.keywords and isinstance(e.func, ast.Attribute) and e.func.attr in _STABLE_METHODS:
+        return _is_stable(e.func.value, attr_stores) and all(_is_stable(x, attr_stores) for x in e.args)
+    if isinstance(e, ast.Compare):
+        return (all(isinstance(o, (ast.Eq, ast.NotEq, ast.Is, ast.IsNot)) for o in e.ops) and _is_stable(e.left, attr_stores)
+                and all(_is_stable(c, attr_stores) for c in e.comparators))
+    if isinstance(e, ast.BoolOp):
+        return all(_is_stable(v, attr_stores) for v in e.values)
+    if isinstance(e, ast.Tuple):
+        return all(_is_stable(v, attr_stores) for v in e.elts)
+    if isinstance(e, ast.UnaryOp) and isinstance(e.op, ast.Not):
+        return _is_stable(e.operand, attr_stores)
+    return False
+
+
+def _attr_stores(nodes: list[ast.stmt]) -> set[str]:
+    return {n.attr for x in nodes for n in ast.walk(x) if isinstance(n, ast.Attribute) and isinstance(n.ctx, (ast.Store, ast.Del))}
+
+
 def _stores(node: ast.AST) -> set[str]:
     return {n.id for n in ast.walk(node) if isinstance(n, ast.Name) and isinstance(n.ctx, (ast.Store, ast.Del))}
 
@@ -204,6 +234,9 @@ def _normalise(fn: ast.FunctionDef, tree: ast.Module) -> ast.FunctionDef:
     """An equivalent function in which
       * module-level literal constants and function-level literal constants (`LIMIT = 1000` as a top-level statement of the body, bound
         once) are replaced by their values,
+      * locals that are bound once to a stable expression (see _is_stable: names, literals, attribute loads, str methods, == / is tests)
+        and used only later in the same block, where none of the names in the expression is re-bound and none of the attributes in it
+        is assigned, are replaced by that expression (`key = classname.casefold()`, `ents = fgd.entities`, `defined = self.x != ()`),
       * locals that are bound once to a pure expression and used only in the statements right after the binding (nothing in between
         but other such bindings; the names in the expression not re-bound before the last use, except inside the body of an `if` whose
         test holds the last use) are replaced by that expression.
@@ -232,15 +265,25 @@ def _normalise(fn: ast.FunctionDef, tree: ast.Module) -> ast.FunctionDef:
 
     def block(stmts: list[ast.stmt]) -> bool:
         for i, st in enumerate(stmts):
+            if isinstance(st, ast.AnnAssign) and isinstance(st.target, ast.Name) and st.value is not None and st.simple:
+                st = ast.copy_location(ast.Assign(targets=[st.target], value=st.value), st)
             if not (isinstance(st, ast.Assign) and len(st.targets) == 1 and isinstance(st.targets[0], ast.Name)):
                 continue
             v = st.targets[0].id
-            if nstores.get(v) != 1 or v in params or not _is_pure(st.value):
+            if nstores.get(v) != 1 or v in params:
                 continue
             free = {n.id for n in ast.walk(st.value) if isinstance(n, ast.Name)} | {v}
             total = _loads(fn, v)
             after = stmts[i + 1:]
             if total == 0 or sum(_loads(x, v) for x in after) != total:
+                continue
+            # a stable value may be used anywhere later in the same block, as long as the names in it are not re-bound there
+            if _is_stable(st.value, _attr_stores(after)) and not any(_stores(x) & free for x in after):
+                del stmts[i]
+                for x in after:
+                    _subst(x, v, st.value)
+                return True
+            if not _is_pure(st.value):
                 continue
             j = max(k for k, x in enumerate(after) if _loads(x, v))
             between, last = after[:j], after[j]
@@ -552,7 +595,7 @@ def _engine_db() -> dict:
             for f in n.body:
                 if isinstance(f, ast.FunctionDef) and f.name in ('get_ent', '_parse_block', 'get_fgd'):
                     digests[f.name] = ast_digest(f)
-                    edb[f.name] = f
+                    edb[f.name] = _normalise(f, tree)
     if set(digests) != {'get_ent', '_parse_block', 'get_fgd'}:
         raise TranslateError('EngineDB.get_ent/_parse_block/get_fgd not found')
     lazy = _lazy_db(edb)
@@ -653,12 +696,127 @@ def _only_colons(lit: ast.AST, what: str) -> int:
     return v.count(':')
 
 
+def _kv_default_desc_paths(fn: ast.FunctionDef, body: list[ast.stmt], dvar: str) -> tuple[int, int]:
+    """What KVDef.export writes between the display name and the value list, read off EVERY PATH through that part of the function
+    instead of one spelling of its `if`s: the part starts after the last binding of the local that holds the default and ends before
+    the first statement that contains a loop.  A path is a choice for every test (`not` stripped; conditional expressions that are the
+    argument of a write are branches too); the truth of `default` (D) and of `self.desc` (S) is tracked, the same test gets the same
+    answer along a path.  Required on all paths:
+        D false, S false : nothing is written;          D false, S true : separators made of colons and blanks, then the description;
+        D true,  S false : the default (any write that is not a bare separator), nothing after it;
+        D true,  S true  : the default, separators, the description.
+    Returns the number of colons in the separators (after a default, without a default); everything else fails closed."""
+    file = fn.args.args[1].arg
+    last_store = max((i for i, st in enumerate(body) if dvar in _stores(st)), default=None)
+    if last_store is None:
+        raise TranslateError('KVDef.export: the local holding the default is never bound')
+    end = next((i for i, st in enumerate(body) if i > last_store and any(isinstance(n, (ast.For, ast.While)) for n in ast.walk(st))), len(body))
+    region = body[last_store + 1:end]
+    if end == len(body) and region:
+        region = region[:-1]            # the final newline write
+    rebound = set().union(*[_stores(st) for st in region]) if region else set()
+    Event = tuple   # ('w', expr) | ('ls', text expr) | ('stop',)
+
+    def atom(test: ast.AST) -> tuple[str, bool]:
+        pol = True
+        while isinstance(test, ast.UnaryOp) and isinstance(test.op, ast.Not):
+            pol, test = not pol, test.operand
+        if isinstance(test, ast.Call) and _is(test.func, 'bool') and len(test.args) == 1 and not test.keywords:
+            test = test.args[0]
+        return ast.unparse(test), pol
+
+    def choose(test: ast.AST, env: dict[str, bool]) -> list[tuple[bool, dict[str, bool]]]:
+        key, pol = atom(test)
+        names = {n.id for n in ast.walk(test) if isinstance(n, ast.Name)}
+        if key in env:
+            return [(env[key] == pol, env)]
+        if names & rebound:             # may change between two evaluations: not remembered
+            return [(True, env), (False, env)]
+        return [(pol, {**env, key: True}), (not pol, {**env, key: False})]
+
+    def expr_paths(e: ast.AST, env: dict[str, bool]) -> list[tuple[ast.AST, dict[str, bool]]]:
+        if isinstance(e, ast.IfExp):
+            out = []
+            for val, env2 in choose(e.test, env):
+                out += expr_paths(e.body if val else e.orelse, env2)
+            return out
+        return [(e, env)]
+
+    def run(sts: list[ast.stmt], env: dict[str, bool], evs: list[Event]) -> list[tuple[dict[str, bool], list[Event]]]:
+        if not sts:
+            return [(env, evs)]
+        st, rest = sts[0], sts[1:]
+        if isinstance(st, ast.If):
+            out = []
+            for val, env2 in choose(st.test, env):
+                for env3, evs3 in run(list(st.body if val else st.orelse), env2, evs):
+                    if evs3 and evs3[-1] == ('stop',):
+                        out.append((env3, evs3))
+                    else:
+                        out += run(rest, env3, evs3)
+            return out
+        if isinstance(st, (ast.Return, ast.Raise)):
+            return [(env, evs + [('stop',)])]
+        uses = any(isinstance(n, ast.Name) and n.id == file for n in ast.walk(st))
+        if isinstance(st, ast.Expr) and isinstance(st.value, ast.Call) and uses:
+            c = st.value
+            if _is_call_method(c, 'write') and _is(c.func.value, file) and len(c.args) == 1 and not c.keywords:  # type: ignore[attr-defined]
+                out = []
+                for e, env2 in expr_paths(c.args[0], env):
+                    out += run(rest, env2, evs + [('w', e)])
+                return out
+            if _is(c.func, '_write_longstring') and len(c.args) == 3 and _is(c.args[0], file):
+                return run(rest, env, evs + [('ls', c.args[2])])
+        if uses or isinstance(st, (ast.For, ast.While, ast.Try, ast.With, ast.Match, ast.FunctionDef)):
+            raise TranslateError(f'KVDef.export: statement between default and value list not recognised: {ast.unparse(st)[:80]}')
+        return run(rest, env, evs)
+
+    def is_sep(e: ast.AST) -> bool:
+        return isinstance(e, ast.Constant) and isinstance(e.value, str) and e.value.strip(' :') == '' and ':' in e.value
+
+    with_d: set[int] = set()
+    without_d: set[int] = set()
+    paths = run(region, {}, [])
+    if len(paths) > 4096:
+        raise TranslateError('KVDef.export: too many paths between default and value list')
+    for env, evs in paths:
+        d, sd = env.get(dvar), env.get('self.desc')
+        evs = [e for e in evs if e != ('stop',)]
+        descs = [i for i, e in enumerate(evs) if e[0] == 'ls']
+        if any(not _is(evs[i][1], 'self.desc') for i in descs):
+            raise TranslateError('KVDef.export: a long string other than the description is written after the default')
+        where = f'(default {"present" if d else "absent" if d is not None else "not tested"}, description ' \
+                f'{"present" if sd else "absent" if sd is not None else "not tested"})'
+        if d is None and evs:
+            raise TranslateError(f'KVDef.export: something is written without a test of the default {where}')
+        if (len(descs) == 1) != bool(sd) or len(descs) > 1:
+            raise TranslateError(f'KVDef.export: the description is not written exactly when it is non-empty {where}')
+        if descs and descs[0] != len(evs) - 1:
+            raise TranslateError(f'KVDef.export: something is written after the description {where}')
+        head = evs[:-1] if descs else evs
+        k = len(head)
+        while k > 0 and is_sep(head[k - 1][1]):
+            k -= 1
+        dflt, seps = head[:k], head[k:]
+        if any(is_sep(e[1]) for e in dflt):
+            raise TranslateError(f'KVDef.export: separator before the default {where}')
+        if bool(dflt) != bool(d):
+            raise TranslateError(f'KVDef.export: the default is not written exactly when it is non-empty {where}')
+        if seps and not descs:
+            raise TranslateError(f'KVDef.export: a separator is written without a description {where}')
+        if descs:
+            (with_d if d else without_d).add(sum(e[1].value.count(':') for e in seps))
+    if len(with_d) != 1 or len(without_d) != 1:
+        raise TranslateError(f'KVDef.export: the separators before the description differ between paths: {sorted(with_d)} / {sorted(without_d)}')
+    return with_d.pop(), without_d.pop()
+
+
 def _text_writers(tree: ast.Module) -> dict:
     """Decisive branches of KVDef.export / EntityDef.export (the model is Fmt/FgdLine.v [line_cfg]) and the write
     skeletons of KVDef.export, IODef.export and EntityDef.export."""
-    kve = _method(tree, 'KVDef', 'export')
-    ioe = _method(tree, 'IODef', 'export')
-    ente = _method(tree, 'EntityDef', 'export')
+    kve = _normalise(_method(tree, 'KVDef', 'export'), tree)
+    ioe = _normalise(_method(tree, 'IODef', 'export'), tree)
+    ente = _normalise(_method(tree, 'EntityDef', 'export'), tree)
     body = _body(kve)
     # `default = self.default` ... `if not default and self.type is ValueTypes.BOOL: default = '0'` ... `if default: ... else: ...`
     dvar = None
@@ -678,24 +836,7 @@ def _text_writers(tree: ast.Module) -> dict:
         bool_fill = True
     else:
         raise TranslateError('KVDef.export: the BOOL default fill is not recognised: ' + ' ; '.join(ast.unparse(f)[:80] for f in fills))
-    branch = [st for st in body if isinstance(st, ast.If) and _is(st.test, dvar)]
-    if len(branch) != 1 or not branch[0].orelse:
-        raise TranslateError('KVDef.export: `if default: ... else: ...` not found')
-
-    def desc_sep(sts: list[ast.stmt], what: str) -> int:
-        ifs = [x for x in sts if isinstance(x, ast.If) and _is(x.test, 'self.desc')]
-        if len(ifs) != 1 or ifs[0].orelse or len(ifs[0].body) != 1:
-            raise TranslateError(f'KVDef.export: `if self.desc: file.write(sep)` not found {what}')
-        w = ifs[0].body[0]
-        if not (isinstance(w, ast.Expr) and _is_call_method(w.value, 'write') and len(w.value.args) == 1):  # type: ignore[attr-defined]
-            raise TranslateError(f'KVDef.export: separator write not recognised {what}')
-        return _only_colons(w.value.args[0], 'KVDef.export separator ' + what)  # type: ignore[attr-defined]
-    colons_with = desc_sep(branch[0].body, 'after a default')
-    colons_without = desc_sep(branch[0].orelse, 'without a default')
-    # the description itself is written iff non-empty
-    if not any(isinstance(st, ast.If) and _is(st.test, 'self.desc') and len(st.body) == 1 and isinstance(st.body[0], ast.Expr)
-               and isinstance(st.body[0].value, ast.Call) and _is(st.body[0].value.func, '_write_longstring') for st in body):
-        raise TranslateError('KVDef.export: `if self.desc: _write_longstring(...)` not found')
+    colons_with, colons_without = _kv_default_desc_paths(kve, body, dvar)
     # EntityDef.export: when is the @resources block written
     res_ifs = [st for st in ast.walk(ente) if isinstance(st, ast.If) and any(
         isinstance(n, ast.Constant) and isinstance(n.value, str) and '@resources' in n.value for x in st.body for n in ast.walk(x))]
@@ -1022,10 +1163,23 @@ def _lazy_db(edb: dict[str, ast.FunctionDef]) -> dict:
     gf = edb['get_fgd']
     found = False
     for n in ast.walk(gf):
-        if isinstance(n, ast.For) and _is(n.iter, 'enumerate(self.unparsed)') and isinstance(n.target, ast.Tuple) \
-                and isinstance(n.target.elts[0], ast.Name):
+        if not isinstance(n, ast.For) or n.orelse:
+            continue
+        # every block index: `for i, .. in enumerate(self.unparsed)` or `for i in range(len(self.unparsed))`
+        if _is(n.iter, 'enumerate(self.unparsed)') and isinstance(n.target, ast.Tuple) and isinstance(n.target.elts[0], ast.Name):
             i = n.target.elts[0].id
-            if any(_is(c, f'self._parse_block({i})') for c in ast.walk(n) if isinstance(c, ast.Call)):
+        elif (_is(n.iter, 'range(len(self.unparsed))') or _is(n.iter, 'range(0, len(self.unparsed))')) and isinstance(n.target, ast.Name):
+            i = n.target.id
+        else:
+            continue
+        # the call is made for every index, or skipped only for blocks without data (what _parse_block itself tests first)
+        for st in n.body:
+            data_names = set([e.id for e in ast.walk(n.target) if isinstance(e, ast.Name)][-1:]) - {i}   # the last name of `i, (classes, data)`
+            guard_ok = isinstance(st, ast.If) and not st.orelse and (
+                (isinstance(st.test, ast.Name) and st.test.id in data_names) or _is(st.test, f'self.unparsed[{i}][1]'))
+            calls = st.body if guard_ok else [st]      # type: ignore[attr-defined]
+            if len(calls) == 1 and _is(calls[0], f'self._parse_block({i})') and not any(
+                    isinstance(x, (ast.Break, ast.Return)) for x in ast.walk(n)):
                 found = True
     if not found:
         raise TranslateError('get_fgd: `for i, ... in enumerate(self.unparsed): ... self._parse_block(i)` not recognised')
@@ -1116,7 +1270,8 @@ def _multi_db(tree: ast.Module) -> dict:
         An optional shortcut for a single database (`if len(databases) == 1: return deepcopy(databases[0].get_fgd())`) is accepted;
       * add_engine_database: where the new database is put (insert(0, ..) = front / append = back) — information."""
     # ---- EntityDef.engine_def
-    ed = _method(tree, 'EntityDef', 'engine_def')
+    ed_raw = _method(tree, 'EntityDef', 'engine_def')
+    ed = _normalise(ed_raw, tree)
     args = [a.arg for a in ed.args.args]
     if len(args) != 2:
         raise TranslateError(f'EntityDef.engine_def signature changed: {args}')
@@ -1154,7 +1309,8 @@ def _multi_db(tree: ast.Module) -> dict:
         raise TranslateError('EntityDef.engine_def: loop body is not `try: return deepcopy(dbase.get_ent(classname)) except KeyError: pass`: '
                              + ast.unparse(loop)[:200])
     # ---- FGD.engine_dbase
-    eb = _method(tree, 'FGD', 'engine_dbase')
+    eb_raw = _method(tree, 'FGD', 'engine_dbase')
+    eb = _normalise(eb_raw, tree)
     env = _single_assignments(eb)
 
     def is_local_def(st: ast.stmt) -> bool:
@@ -1260,7 +1416,7 @@ def _multi_db(tree: ast.Module) -> dict:
             where = 'back'
     return dict(first_hit=fwd, merge=mode, merge_loop_forward=fwd_all, effective_first=effective_first, single_shortcut=shortcut,
                 applies_bases=applies_bases, added_database_goes=where,
-                digests={'engine_def': ast_digest(ed), 'engine_dbase': ast_digest(eb), 'add_engine_database': ast_digest(ad)})
+                digests={'engine_def': ast_digest(ed_raw), 'engine_dbase': ast_digest(eb_raw), 'add_engine_database': ast_digest(ad)})
 
 
 # ------------------------------------------------------------------------------------------ emit
